@@ -319,6 +319,11 @@ c.requires(event_pre)
 
 @c.requires
 def _(c):
+    yield "not_from_future", I.not_from_future(c.pre, c.a.t("server_rx"))
+
+
+@c.requires
+def _(c):
     yield "is_bound", cf(c.pre, "_app")[c.self_ref] != 0
 
 
@@ -364,6 +369,11 @@ c = contract("server_websocket.WebSocketServer.handle_claim", cls="WebSocketServ
              params={"msg": "msg", "server_rx": "real"}, modifies=CLAIM_H_MOD,
              tags=["C03", "C05", "C07", "C09", "C10", "C14", "C17"])
 c.requires(event_pre)
+
+
+@c.requires
+def _(c):
+    yield "not_from_future", I.not_from_future(c.pre, c.a.t("server_rx"))
 
 
 @c.requires
@@ -499,6 +509,11 @@ c = contract("server_websocket.WebSocketServer.handle_open", cls="WebSocketServe
              params={"msg": "msg", "server_rx": "real"}, modifies=OPEN_MOD,
              tags=["C01", "C02", "C05", "C06", "C09", "C10", "C12", "C14", "C17"])
 c.requires(event_pre)
+
+
+@c.requires
+def _(c):
+    yield "not_from_future", I.not_from_future(c.pre, c.a.t("server_rx"))
 
 
 @c.requires
@@ -655,6 +670,11 @@ c = contract("server_websocket.WebSocketServer.handle_close", cls="WebSocketServ
              params={"msg": "msg", "server_rx": "real"}, modifies=CLOSE_H_MOD,
              tags=["C02", "C05", "C08", "C09", "C10", "C14", "C15", "C16", "C17", "C01", "C07", "C06", "C13"])
 c.requires(event_pre)
+
+
+@c.requires
+def _(c):
+    yield "not_from_future", I.not_from_future(c.pre, c.a.t("server_rx"))
 
 
 def close_target(c):
